@@ -52,6 +52,10 @@ def make_iter(ex, node, st):
         if ty.kind == 'dict':
             return dict_iter(ex, d, ty, st, node.func.attr)
     v = ex.ev(node, st)
+    return make_iter_value(ex, v, st, desc)
+
+
+def make_iter_value(ex, v, st, desc):
     ty = ex.obj_class(v, st, desc)
     k = ty.kind
     if k == 'list':
@@ -93,6 +97,21 @@ def make_iter(ex, node, st):
                 st2.assume(S.has_type(t, et, st2.next_ref))
                 return V(t, et)
             return Iter(z3.Length(seq), elem, seq, None, 'tuple')
+    if k == 'any':
+        # a value of unknown static type that the path condition proves to be a list (or a tuple) is iterated as such
+        t = v.t
+        is_list = z3.And(S.is_ref(t), S.tyof(S.addr(t)) == S.type_id('list'))
+        slv = z3.Solver()
+        slv.set('timeout', 500)
+        slv.add(*[f for f in st.pc if not z3.is_quantifier(f)])
+        slv.push()
+        slv.add(z3.Not(is_list))
+        if slv.check() == z3.unsat:
+            return make_iter_value(ex, V(t, S.List(S.Any)), st, desc)
+        slv.pop()
+        slv.add(z3.Not(S.is_tup(t)))
+        if slv.check() == z3.unsat:
+            return make_iter_value(ex, V(t, S.TupleOf(S.Any)), st, desc)
     if k == 'opaque' and ty.name in ex.reg.opaque_iter:
         fn = ex.reg.opaque_iter[ty.name]
         ex.used_trusted.add(fn.trusted_name)
